@@ -241,6 +241,10 @@ def gen_scenarios(rng, quick):
     # the application now and then hands over an ASDU that is too large for an APDU (refused by the queue; nothing may stay locked)
     for mode in (0, 1, 2):
         add("srv", seed=rng.below(1 << 30), mode=mode, conns=rng.range(1, 2), apps=rng.range(1, 3), rounds=25 if quick else 80, reent=0, raw=0, stop=0, big=1)
+    # several application threads send on one client connection with a small window while the peer acknowledges at once: every
+    # acknowledgement lets them race for the free place; never more than k I-frames in flight
+    for k_ in (1, 1, 2):
+        add("cli", seed=rng.below(1 << 30), apps=4, rounds=25 if quick else 100, reent=0, raw=0, close=0, win=k_)
     plain = list(sc)
     # callbacks that call back into the API (instrumented-semaphore build only)
     sc = []
@@ -349,6 +353,8 @@ def dynamic_part(ck, rng, quick):
                 ck.fail("input", sig, "instrumented semaphore: %s [%s] in scenario `%s`" % (text, (m.group(2) or "").strip(), line), rep)
             if l.startswith("hang"):
                 ck.fail("input", "hang:%s%s" % (kind, ":reent" if "reent=1" in line else ""), "scenario did not finish (deadlock watchdog): `%s`" % line, rep)
+            if l.startswith("window "):
+                ck.fail("input", "atomicity:window:%s" % kind, "k-window test and send are not one atomic step: %s (scenario `%s`)" % (l.split(None, 2)[2], line), rep)
         races = tsan_races(err) if variant == "tsan" else []
         for sig, text in races:
             if sig.endswith(":outside-library"):
